@@ -838,6 +838,43 @@ def bounded(b):
         k = rng2.randint(3, 8)
         _run_history(b, [rng2.choice(U2) for _ in range(k)], every_step=not quick)
     _point_primitives(b)
+    _hierarchy_sweep(b)
+
+
+def _hierarchy_sweep(b):
+    """one object of every class of timed objects, registered by its start only, by its end only and by both, then removed: no operation
+    raises, and the part is empty afterwards"""
+    import partitura.score as sc
+    a_, z_ = sc.Note("C", 4, id="a"), sc.Note("D", 4, id="z")
+    makers = {
+        "Note": lambda: sc.Note("C", 4), "Rest": lambda: sc.Rest(), "GraceNote": lambda: sc.GraceNote("grace", "D", 4), "UnpitchedNote": lambda: sc.UnpitchedNote("F", 3),
+        "Measure": lambda: sc.Measure(number=1), "TimeSignature": lambda: sc.TimeSignature(3, 4), "KeySignature": lambda: sc.KeySignature(2, "major"),
+        "Clef": lambda: sc.Clef(staff=1, sign="G", line=2, octave_change=0), "Tempo": lambda: sc.Tempo(90, "q"), "Barline": lambda: sc.Barline("light-heavy"),
+        "Fermata": lambda: sc.Fermata("right"), "Page": lambda: sc.Page(1), "System": lambda: sc.System(1), "Slur": lambda: sc.Slur(a_, z_), "Tuplet": lambda: sc.Tuplet(a_, z_),
+        "Repeat": lambda: sc.Repeat(), "Ending": lambda: sc.Ending("1"), "DaCapo": lambda: sc.DaCapo(), "Fine": lambda: sc.Fine(), "Segno": lambda: sc.Segno(), "DalSegno": lambda: sc.DalSegno(),
+        "Coda": lambda: sc.Coda(), "ToCoda": lambda: sc.ToCoda(), "Words": lambda: sc.Words("dolce"), "ConstantLoudnessDirection": lambda: sc.ConstantLoudnessDirection("p"),
+        "IncreasingLoudnessDirection": lambda: sc.IncreasingLoudnessDirection("crescendo", wedge=True), "ConstantTempoDirection": lambda: sc.ConstantTempoDirection("adagio"),
+        "SustainPedalDirection": lambda: sc.SustainPedalDirection(line=True), "OctaveShiftDirection": lambda: sc.OctaveShiftDirection(8), "Transposition": lambda: sc.Transposition(-1, -2),
+        "Staff": lambda: sc.Staff(number=1, lines=5), "Beam": lambda: sc.Beam(), "Segment": lambda: sc.Segment("seg_a", [], []), "Harmony": lambda: sc.Harmony("C:I") if hasattr(sc, "Harmony") else sc.Words("x"),
+    }
+    for cname, mk in sorted(makers.items()):
+        for how, (s_, e_) in (("start_only", (3, None)), ("end_only", (None, 3)), ("both", (1, 4)), ("start_equals_end", (2, 2))):
+            case = {"class": cname, "registered_by": how}
+            def run():
+                p = sc.Part("P", quarter_duration=2)
+                anchor = sc.Rest(id="anchor")
+                p.add(anchor, 0, 6)
+                o = mk()
+                p.add(o, s_, e_)
+                listed = [x for x in p.iter_all(type(o), mode="starting")] + [x for x in p.iter_all(type(o), mode="ending")]
+                p.remove(o)
+                left = [x for x in p.iter_all(include_subclasses=True) if x is not anchor] if False else [x for pt_ in p._points for reg in (pt_.starting_objects, pt_.ending_objects) for v in reg.values() for x in v if x is not anchor]
+                return (any(x is o for x in listed), left, [pt_.t for pt_ in p._points], getattr(o, "start", "missing"), getattr(o, "end", "missing"))
+            ok, res = b.guard("history/no_exception_on_valid_arguments", case, run)
+            if ok:
+                was_listed, left, times, st_, en_ = res
+                b.case("history/registries_and_object_ends_agree", was_listed and not left and times == [0, 6] and st_ is None and en_ is None, case,
+                       "listed while registered: %r; still listed after removal: %r; time points %r; the removed object's start/end: %r/%r" % (was_listed, left, times, st_, en_))
 
 
 def _point_primitives(b):
